@@ -27,3 +27,74 @@ Proof. exact numbers_stream. Qed.
 Check C15_modes_numbers. Check C15_raw_numbers.
 Print Assumptions C15_modes_numbers.
 Print Assumptions C15_raw_numbers.
+
+(* ------------------------------------------------------------------ the asynchronous mode *)
+(* C15 - contents independent of the write mode: the ASYNCHRONOUS mode.  Statements only (proofs: Flw/NumAsync.v,
+   Flw/AsyncSim.v).  In the model every message to the writer thread is consumed before the next operation starts
+   (the scheduling assumption of the model and of the test harness). *)
+Require Import FL.Base.Bytes FL.Fs.Fs FL.Names.FileSpec FL.Flw.Model FL.Flw.ModelFacts FL.Flw.Run FL.Flw.NumInv FL.Flw.NumRun
+  FL.Oracles.O_Flw FL.Flw.NumTheorems FL.Flw.NumKillRestart FL.Flw.NumAsync FL.Flw.AsyncSim.
+
+(* Direct / buffered / asynchronous: the same operations leave directories that read as the same list of files, the
+   greedy partition of the written records and chunks *)
+Theorem C15_modes_numbers_async :
+  forall ca cs m t0 off ops,
+    numacfg ca (CSize m) -> numcfg cs (CSize m) -> Forall basic_op ops ->
+    exists files,
+      reads ca (wfs (s_w (fst (run (sys0 t0 off) (OStart ca :: ops ++ [OStop]))))) files
+      /\ reads cs (wfs (s_w (fst (run (sys0 t0 off) (OStart cs :: ops ++ [OStop]))))) files.
+Proof. exact async_sync_same_files. Qed.
+
+(* any criterion: the stream *)
+Theorem C15_raw_numbers_async :
+  forall c crit t0 off ops,
+    numacfg c crit -> Forall basic_op ops ->
+    exists files, reads c (wfs (s_w (fst (run (sys0 t0 off) (OStart c :: ops ++ [OStop]))))) files
+      /\ concat files = written ops.
+Proof. exact async_numbers_stream. Qed.
+
+(* the asynchronous writer and the synchronous writer of the same capacity go through the very same worlds (file
+   system, clock, error channel), with and without the final drop; the caller's observations differ in the rotation
+   flag only, which the asynchronous caller never sees *)
+Theorem C15_worlds_numbers_async :
+  forall c crit t0 off ops,
+    numacfg c crit -> Forall basic_op ops ->
+    let ra := run (sys0 t0 off) (OStart c :: ops) in
+    let rs := run (sys0 t0 off) (OStart (sync_of c) :: ops) in
+    let ra' := run (sys0 t0 off) (OStart c :: ops ++ [OStop]) in
+    let rs' := run (sys0 t0 off) (OStart (sync_of c) :: ops ++ [OStop]) in
+    s_w (fst ra) = s_w (fst rs) /\ snd ra = List.map no_rot (snd rs)
+    /\ s_w (fst ra') = s_w (fst rs') /\ snd ra' = List.map no_rot (snd rs').
+Proof. exact async_worlds_numbers. Qed.
+
+(* every configuration (any naming, criterion, cleanup): as long as the synchronous run returns normal results *)
+Theorem C15_async_simulates_sync :
+  forall c t0 off ops,
+    c_async c = true -> Forall basic_op ops ->
+    let ra := run (sys0 t0 off) (OStart c :: ops) in
+    let rs := run (sys0 t0 off) (OStart (sync_of c) :: ops) in
+    Forall obs_ok (snd rs) ->
+    (s_w (fst ra) = s_w (fst rs) /\ snd ra = List.map no_rot (snd rs) /\ s_dead (fst ra) = false)
+    /\ (quiet (s_w (fst rs)) ->
+        let ra' := run (sys0 t0 off) (OStart c :: ops ++ [OStop]) in
+        let rs' := run (sys0 t0 off) (OStart (sync_of c) :: ops ++ [OStop]) in
+        s_w (fst ra') = s_w (fst rs') /\ snd ra' = List.map no_rot (snd rs')
+        /\ s_flw (fst ra') = None /\ s_dead (fst ra') = true).
+Proof. exact async_sim_whole. Qed.
+
+(* what the caller of an asynchronous writer observes *)
+Theorem C15_async_observations :
+  forall c crit t0 off ops,
+    numacfg c crit -> Forall basic_op ops ->
+    let r := run (sys0 t0 off) (OStart c :: ops ++ [OStop]) in
+    Forall2 aobs (OStart c :: ops ++ [OStop]) (snd r)
+    /\ s_flw (fst r) = None /\ s_dead (fst r) = true /\ pending (fst r) = [].
+Proof. exact async_observations. Qed.
+
+Check C15_modes_numbers_async. Check C15_raw_numbers_async. Check C15_worlds_numbers_async.
+Check C15_async_simulates_sync. Check C15_async_observations.
+Print Assumptions C15_modes_numbers_async.
+Print Assumptions C15_raw_numbers_async.
+Print Assumptions C15_worlds_numbers_async.
+Print Assumptions C15_async_simulates_sync.
+Print Assumptions C15_async_observations.
